@@ -70,7 +70,7 @@ prop('C16',
      ])
 
 prop('C13',
-     units=['ff', 'poly'],
+     units=['ff', 'poly', 'polyff'],
      kani=[{'name': 'k_bool_laws'}, {'name': 'k_real_lattice'}, {'name': 'k_eu_lattice'},
            {'name': 'k_real_add_small_int'}, {'name': 'k_real_mul_small_int'},
            {'name': 'k_eu_semiring_small_int'}, {'name': 'k_complex_small_int'},
@@ -81,7 +81,7 @@ prop('C13',
                  'ring laws are lemmas over the operator specifications.  Truncated polynomials (unit poly): zero, one, + and * against their definitions, generic in the coefficient semiring.  Boolean semiring and the real / expected-utility lattice operations: loop-free Kani harnesses over the whole bit domain.',
      not_covered=[
          'RationalSemiring (external crate `rational`; its field is private, so only values built from one()/zero() are reachable) [bounded check `lattice` only: naturals 0..4]',
-         'truncated polynomials: the laws are proved (unit poly, prelude/polylaws.rs) for polynomials in normal form over ANY coefficient type whose operator specifications form a commutative semiring (hypothesis `csr`; unit ff proves those laws for FiniteField, but the instantiation csr::<FiniteField<P>> is not itself discharged in one unit); the float-based coefficient types are covered only as far as their own laws are (next item)',
+         'truncated polynomials: the laws are proved (unit poly, prelude/polylaws.rs) for polynomials in normal form over any coefficient type whose VALID elements form a commutative semiring under its operator specifications (hypothesis `csr`); unit polyff discharges `csr` for FiniteField<P> (valid = reduced residue) for every P with ff_ok, i.e. all seven exported primes; for the float-based coefficient types `csr` is not established (floating-point + is not associative), so polynomials over them are covered only by the bounded check `poly`-style reasoning of the next item',
          'real +,* beyond integers |x| <= 8 and expected-utility / complex +,* beyond integers |x| <= 4 (domain-bounded Kani harnesses, labelled as such; floating-point addition is not associative in general); the multiplication associativity / distributivity harnesses of the latter two run in the thorough tier only (50-100 s)',
      ])
 
